@@ -41,7 +41,16 @@ def _is_result(tys):
 class Forcing:
     def __init__(self, body, atom=None, param_vals=None):
         self.b = body
-        self.atom = atom or (lambda e: None)
+        raw = atom or (lambda e: None)
+
+        def _atom(e, raw=raw):
+            v = raw(e)
+            if v is None:
+                nv = raw(("not", e))          # the complement of this comparison was forced (q.cmp_atoms lists both spellings)
+                if nv in (0, 1):
+                    return 1 - nv
+            return v
+        self.atom = _atom
         self.vals = {}
         self.reach = set()
         self.edges = set()
